@@ -19,9 +19,10 @@ pred ranNode(flow []FlowNode, k int) := 0 <= runIdx[k] && runIdx[k] < len(flow) 
 pred stepOK(flow []FlowNode, k int) := runIdx[k] < runIdx[k + 1] && (runResult[k] == "" ? runIdx[k + 1] == runIdx[k] + 1 : (jumpOf(flow, runIdx[k], runResult[k]) != "" && jumpOf(flow, runIdx[k], runResult[k]) != "END" && aliasOf(flow, runIdx[k + 1]) == jumpOf(flow, runIdx[k], runResult[k]) && (forall j int :: runIdx[k] < j && j < runIdx[k + 1] ==> aliasOf(flow, j) != jumpOf(flow, runIdx[k], runResult[k]))))
 
 func (p *Pipeline) doHandle(ctx *context.Context, flow []FlowNode, stats []FilterStat) (result string, outStats []FilterStat, sawEnd bool)
-  requires ctx != nil
+  requires ctx != nil && context.respOK()
+  ensures response-never-half-built: context.respOK()
   requires filters-bound: forall j int :: 0 <= j && j < len(flow) && !isEnd(flow, j) ==> flow[j].filter != nil
-  modifies runLen, runFilter, runNS, runResult, runIdx, ctx.activeNs, elems(stats)
+  modifies runLen, runFilter, runNS, runResult, runIdx, ctx.activeNs, elems(stats), outResp, outRespTyp
   ensures stats-backing: ref(outStats) == ref(stats) || fresh(outStats)
   ensures log-grows: runLen >= old(runLen)
   ensures log-prefix-kept: forall k int :: k < old(runLen) ==> runFilter[k] == old(runFilter[k]) && runNS[k] == old(runNS[k]) && runResult[k] == old(runResult[k]) && runIdx[k] == old(runIdx[k])
@@ -33,7 +34,7 @@ func (p *Pipeline) doHandle(ctx *context.Context, flow []FlowNode, stats []Filte
   ensures ends-by-result: runLen > old(runLen) && result != "" && (jumpOf(flow, runIdx[runLen - 1], result) == "" || jumpOf(flow, runIdx[runLen - 1], result) == "END") ==> sawEnd
   ensures ends-at-end-node-or-flow-end: runLen > old(runLen) && result == "" ==> (sawEnd ? (runIdx[runLen - 1] + 1 < len(flow) && isEnd(flow, runIdx[runLen - 1] + 1)) : runIdx[runLen - 1] + 1 == len(flow))
   ensures pending-jump-found-nothing-or-end: runLen > old(runLen) && result != "" && jumpOf(flow, runIdx[runLen - 1], result) != "" && jumpOf(flow, runIdx[runLen - 1], result) != "END" ==> (sawEnd ? (exists j int :: runIdx[runLen - 1] < j && j < len(flow) && isEnd(flow, j) && aliasOf(flow, j) == jumpOf(flow, runIdx[runLen - 1], result) && (forall m int :: runIdx[runLen - 1] < m && m < j ==> aliasOf(flow, m) != jumpOf(flow, runIdx[runLen - 1], result))) : (forall j int :: runIdx[runLen - 1] < j && j < len(flow) ==> aliasOf(flow, j) != jumpOf(flow, runIdx[runLen - 1], result)))
-  invariant[1] log: runLen >= old(runLen) && !sawEnd && ctx != nil
+  invariant[1] log: runLen >= old(runLen) && !sawEnd && ctx != nil && context.respOK()
   invariant[1] stats-backing: ref(stats) == old(ref(stats)) || fresh(stats)
   invariant[1] prefix: forall k int :: k < old(runLen) ==> runFilter[k] == old(runFilter[k]) && runNS[k] == old(runNS[k]) && runResult[k] == old(runResult[k]) && runIdx[k] == old(runIdx[k])
   invariant[1] ran: forall k int :: old(runLen) <= k && k < runLen ==> ranNode(flow, k) && runIdx[k] < i
@@ -48,8 +49,9 @@ pred bound(flow []FlowNode) := forall j int :: 0 <= j && j < len(flow) && !isEnd
 pred segment(flow []FlowNode, lo int, hi int) := lo <= hi && (forall k int :: lo <= k && k < hi ==> ranNode(flow, k)) && (forall k int :: lo <= k && k + 1 < hi ==> stepOK(flow, k)) && (hi > lo ==> runIdx[lo] == 0)
 
 func (p *Pipeline) Handle(ctx *context.Context) (result string)
-  requires p != nil && ctx != nil && bound(p.flow)
-  modifies runLen, runFilter, runNS, runResult, runIdx, ctx.activeNs
+  requires p != nil && ctx != nil && bound(p.flow) && context.respOK()
+  ensures response-never-half-built: context.respOK()
+  modifies runLen, runFilter, runNS, runResult, runIdx, ctx.activeNs, outResp, outRespTyp
   ensures one-run-of-the-flow: segment(p.flow, old(runLen), runLen)
   ensures result-is-last-filters-result: result == (runLen > old(runLen) ? runResult[runLen - 1] : "")
 
@@ -60,8 +62,9 @@ ghost var endM bool
 
 func (p *Pipeline) HandleWithBeforeAfter(ctx *context.Context, before *Pipeline, after *Pipeline) (result string)
   flag paths=split
-  requires p != nil && ctx != nil && bound(p.flow) && (before != nil ==> bound(before.flow)) && (after != nil ==> bound(after.flow))
-  modifies runLen, runFilter, runNS, runResult, runIdx, ctx.activeNs, segB, segM, endB, endM
+  requires p != nil && ctx != nil && bound(p.flow) && (before != nil ==> bound(before.flow)) && (after != nil ==> bound(after.flow)) && context.respOK()
+  ensures response-never-half-built: context.respOK()
+  modifies runLen, runFilter, runNS, runResult, runIdx, ctx.activeNs, segB, segM, endB, endM, outResp, outRespTyp
   ensures before-runs-first: before != nil ==> segment(before.flow, old(runLen), segB)
   ensures end-in-before-stops-everything: before != nil && endB ==> runLen == segB
   ensures main-runs-after-before: (before == nil || !endB) ==> segment(p.flow, (before != nil ? segB : old(runLen)), segM)
